@@ -112,9 +112,14 @@ class WitnessModel(Model):
             if attr == 'dtype':
                 return v.dtype
             if attr == 'values':
+                flat = self._flat(v)
+                if flat and all('concrete' in x.members for x in flat) and it is not None:
+                    return [x.members['concrete'] for x in it]  # a numpy array of plain numbers / strings
                 r = self._map(interp, v, lambda x: self.raw(interp, x, node, 'value'))
                 r.kind = 'raw'
                 return r
+            if attr == 'name':
+                return v.members.get('name', '')
             if attr == 'value':
                 raise RaiseSignal('DimensionError', node, interp.where(node), ('value of a non-scalar',))
             if attr == 'variances':
@@ -440,6 +445,14 @@ class WitnessModel(Model):
         if isinstance(x, SVar) and isinstance(x.members.get('var'), SVar):
             return x.members['var']
         return super().sc_variances(interp, args, kwargs, node)
+
+    def sc_stddevs(self, interp, args, kwargs, node):
+        x = args[0]
+        if isinstance(x, SVar) and isinstance(x.members.get('var'), SVar) and isinstance(x.members['var'].term, Rat):
+            r = self.new(interp, T.sqrt(x.members['var'].term), x.unit, x.dtype)
+            r.members['dims'] = []
+            return r
+        return super().sc_stddevs(interp, args, kwargs, node)
 
     def sc_issorted(self, interp, args, kwargs, node):
         x = args[0]
